@@ -174,6 +174,14 @@ Theorem c17_reject_kv_number : forall init l k v,
   unmarshal_kv_into init l = None.
 Proof. exact kv_rejects_bad_number. Qed.
 Print Assumptions c17_reject_kv_number.
+
+(* In particular a key that is REPEATED in the URL form - two or more values, identical or not, a
+   known parameter or an unknown key - is an error: the carrier is a list of value lists and the
+   reader demands length exactly 1; nothing is deduplicated. *)
+Theorem c17_repeated_key_rejected : forall init vals k v n,
+  In (k, repeat v (S (S n))) vals -> unmarshal_url_into init vals = None.
+Proof. exact url_rejects_repeated_key. Qed.
+Print Assumptions c17_repeated_key_rejected.
 Theorem c17_reject_kv_bool : forall init l v,
   In (k_reconnect, v) l -> v <> b_true -> v <> b_false -> unmarshal_kv_into init l = None.
 Proof. exact kv_rejects_bad_bool. Qed.
@@ -308,6 +316,14 @@ Example c17_example :
   /\ effective (compress_config p (mkC false 1 true 3)) = Enabled false 6%Z 15%Z
   /\ effective (compress_config p (mkC true 9 false 30)) = Enabled false 6%Z 15%Z.
 Proof. vm_compute. repeat split; reflexivity. Qed.
+
+(* enc=json&clevel=6&enc=json and friends are refused; the same query without the repetition is read *)
+Example c17_example_repeated_key :
+  unmarshal_url [(k_enc, [enc_json; enc_json]); (k_clevel, [s2b "6"])] = None
+  /\ unmarshal_url [(k_cwinbits, [s2b "15"; s2b "15"; s2b "15"])] = None
+  /\ unmarshal_url [(s2b "foo", [s2b "bar"; s2b "bar"])] = None
+  /\ unmarshal_url [(k_enc, [enc_json]); (k_clevel, [s2b "6"])] = Some (mkP enc_json [] (Some 6%Z) None [] false [] 0 0).
+Proof. exact repeated_key_rejected_example. Qed.
 
 (* rejection is not vacuous either: one set per listed defect *)
 Example c17_example_reject :
